@@ -51,6 +51,9 @@ use dmntk_feel::{AstNode, FeelNumber, Name, Scope};
 use serde_json::json;
 use std::collections::{BTreeMap, BTreeSet};
 
+mod dtoverlap;
+mod reuse;
+
 pub fn run(cfg: &Cfg) -> Report {
   let mut rep = crate::c01::run_with(cfg, "C13");
   let thorough = cfg.tier == "thorough";
@@ -60,6 +63,12 @@ pub fn run(cfg: &Cfg) -> Report {
   model_repeatability(cfg, &mut rep);
   let t1 = std::time::Instant::now();
   long_sequences(cfg, &mut rep);
+  let t2 = std::time::Instant::now();
+  reuse::reuse_family(cfg, &mut rep);
+  dtoverlap::dt_overlap_family(cfg, &mut rep);
+  if std::env::var("VHARNESS_C13_TRACE").is_ok() {
+    eprintln!("reuse {} ms", t2.elapsed().as_millis());
+  }
   if std::env::var("VHARNESS_C13_TRACE").is_ok() {
     eprintln!("model_repeatability {} ms, long_sequences {} ms", (t1 - t0).as_millis(), t1.elapsed().as_millis());
   }
